@@ -742,6 +742,12 @@ EXTRA_EXAMPLES = [
     "f(" + "\n" * 127 + "1)", "f(" + "\n" * 128 + "1)", "f(" + "\n" * 129 + "1)",
     "x = 1" + "\n" * 128 + "y = 2", "x = 1" + "\n" * 254 + "y = 2", "x = 1" + "\n" * 255 + "y=2", "x = 1" + "\n" * 256 + "y=2",
     "x = 1" + "\n" * 381 + "y=2", "x = 1" + "\n" * 382 + "y=2",
+    # two separately folded NaNs / two equal nested code objects that each own a NaN (duplicate table entries)
+    "x = 1e999-1e999\ny = 1e999-1e999\nz = x\n",
+    "g = [lambda: 1e999 - 1e999, lambda: 1e999 - 1e999]\n",
+    "def f():\n    \"\"\"multi\n    \nline\"\"\"\n    return 'a\u2028b\x85c'\n",
+    "def first(target, *opts): return opts\ndef second(target, **opts): return opts\n",
+    "def so(*a, **k): pass\nlam = lambda *a: a\n",
     # <=3.9 peephole tuple folding with a constant index >= 256: line entry inside an instruction
     ";".join("x=%d" % (1000 + i) for i in range(260)) + "\ndef f(a=1,\n b=2): pass\n",
     ";".join("x=%d" % (1000 + i) for i in range(260)) + "\ndef f(a=1,\n b=2,\n c=3): pass\ny = (a,\n b)\n",
